@@ -127,11 +127,11 @@ def calls(cfgname):
     E = Ellipsis
     for name in ("set", "add", "replace", "append", "prepend"):
         for v in values:
-            for expire, noreply, flags in itertools.product((E, 5), (E, True, False), (E, 7)):
+            for expire, noreply, flags in itertools.product((E, 5), (E, True, False, None), (E, 7)):
                 add(name, key, v, expire=expire, noreply=noreply, flags=flags)
     for v in (values[0], values[-1]):
         for tok in (b"1", b"99"):
-            for expire, noreply, flags in itertools.product((E, 5), (E, True, False), (E, 7)):
+            for expire, noreply, flags in itertools.product((E, 5), (E, True, False, None), (E, 7)):
                 add("cas", key, v, tok, expire=expire, noreply=noreply, flags=flags)
     for default in (E, "D"):
         add("get", key, default=default)
@@ -150,15 +150,29 @@ def calls(cfgname):
     add("get_many", [key, K2, key])
     add("gets_many", [key, key])
     add("delete_many", [key, key, K2], noreply=False)
-    for expire, noreply, flags in itertools.product((E, 5), (E, True, False), (E, 7)):
+    for expire, noreply, flags in itertools.product((E, 5), (E, True, False, None), (E, 7)):
         add("set_many", {key: values[-1], K2: b"w"}, expire=expire, noreply=noreply, flags=flags)
-    for noreply in (E, True, False):
+    for noreply in (E, True, False, None):
         add("delete", key, noreply=noreply)
         add("delete_many", [key, K2], noreply=noreply)
         add("incr", key, 2, noreply=noreply)
         add("decr", key, 1, noreply=noreply)
         for expire in (E, 5):
             add("touch", key, expire=expire, noreply=noreply)
+    # other spellings of a key: bytes, and bytes that are not text in any encoding (packed ids, digests)
+    for k2 in (b"k", b"\xfa\xce\xb0\xba", b"\xe9", "k" * 200, b"\xff" * 240):
+        add("get", k2)
+        add("gets", k2)
+        add("set", k2, b"v", noreply=False)
+        add("cas", k2, b"v", b"1", noreply=False)
+        add("incr", k2, 1, noreply=False)
+        add("delete", k2, noreply=False)
+        add("touch", k2, expire=5, noreply=False)
+        add("gat", k2, expire=5)
+        add("get_many", [k2, K2])
+        add("gets_many", [K2, k2])
+        add("set_many", {k2: b"v", K2: b"w"}, noreply=False)
+        add("delete_many", [k2], noreply=False)
     # dict-style access where the class offers it
     out.append((f"obj[{key!r}] = b'v'", "__setitem__", (key, b"v"), {}))
     out.append((f"obj[{key!r}]", "__getitem__", (key,), {}))
